@@ -263,7 +263,9 @@ def accepts(**arg_units):
             Decorated function.
 
         """
-        names_of_args = f.__code__.co_varnames
+        # only the positional parameters: co_varnames goes on with keyword-only
+        # parameters, *args/**kwargs and local variables
+        names_of_args = f.__code__.co_varnames[: f.__code__.co_argcount]
 
         @wraps(f)
         def new_f(*args, **kwargs):
